@@ -21,8 +21,16 @@ impl BananaShower {
             let mut count = 0;
 
             while time <= end_time {
-                time += spacing;
+                let next_time = time + spacing;
                 count += 1;
+
+                // For very large times the spacing is absorbed by `f32`'s
+                // precision in which case `time` would never reach `end_time`.
+                if next_time <= time {
+                    break;
+                }
+
+                time = next_time;
             }
 
             count
